@@ -135,4 +135,12 @@ def libraryClosed : Cause → Bool
 the transport down in response -/
 def Allowed (c : Cause) (e : ConnError) : Prop := e = actual c ∨ (libraryClosed c = true ∧ e = .locallyClosed)
 
+/-- the code the library puts on the wire when it closes the transport itself
+(`Worker::run`: `H3_NO_ERROR` after a session close, the error's code after a protocol error,
+nothing when the connection is already gone) -/
+def closeCodeOnWire : DriverError → Option Nat
+  | .appClosed _ _ => some H3Err.noError.toCode
+  | .proto e => some e.toCode
+  | .notConnected => none
+
 end Result
